@@ -56,12 +56,17 @@ structure AppendOK (σ : Leaves) (op : UOp) (S S' : Rel) : Prop where
   engine : S'.engine = S.engine
 
 /-- Raw SQL trees covered by the conform theorem: assembled bottom-up from leaves, materializations
-and transfers into one SQL engine with the seven unary operations and chains - no joins (open) and no
-`Select` markers (those are what `conform` adds). -/
+and transfers into one SQL engine with the seven unary operations, chains and joins (whose predicate
+only needs columns of the operands, which live in one engine) - no `Select` markers (those are what
+`conform` adds). -/
 def Rel.RawSql : Rel → Prop
   | .leaf _ e _ _ _ _ _ _ => e.kind = .sql
   | .unary _ t _ => Rel.RawSql t
-  | .binary op l r _ => Rel.RawSql l ∧ Rel.RawSql r ∧ op = .chain
+  | .binary op l r _ => Rel.RawSql l ∧ Rel.RawSql r ∧
+      (match op with
+       | .chain => True
+       | .join j => j.pred.columnsRequired.subset (l.columns.union r.columns) = true ∧ l.engine = r.engine
+       | .ignoreOne _ => False)
   | .mat _ _ t => t.engine.kind = .sql
   | .transfer _ d _ => d.kind = .sql
   | .select .. => False
